@@ -9,6 +9,7 @@ var Registry = map[string]func() int{
 	"C05": C05,
 	"C02": C02,
 	"C19": C19,
+	"C13": C13,
 }
 
 func IDs() []string {
